@@ -90,7 +90,7 @@ m = {
     ],
     "checks": checks,
     "not_applicable": [],
-    "notes": "All checks rebuild from /repo's working tree (path dependency / regenerated port). Fix commits in /repo: bbcb13b c25c625 a448b44 (see known_findings.json). Seeded changes (six rounds) and which checks catch them: seeded/README.md.",
+    "notes": "All checks rebuild from /repo's working tree (path dependency / regenerated port). Fix commits in /repo: bbcb13b c25c625 a448b44 (see known_findings.json). Seeded changes (seven rounds) and which checks catch them: seeded/README.md.",
 }
 json.dump(m, open(os.path.join(VERIF, "MANIFEST.json"), "w"), indent=1)
 print("MANIFEST.json written")
